@@ -13,7 +13,16 @@ GEOMETRY = dict(
     constants={"DONT_INTERSECT": ("(0 : Int)", "Int"), "DO_INTERSECT": ("(1 : Int)", "Int"), "PARALLEL": ("(3 : Int)", "Int")},
 )
 
-JOBS = {"geometry": GEOMETRY}
+MAKEPATH = dict(
+    src="cola/libavoid/makepath.cpp",
+    ns="AdaptaVerif.Gen.Makepath",
+    out="lean/AdaptaVerif/Gen/Makepath.lean",
+    functions=["dimDirection", "orthogonalDirectionsCount", "orthogonalDirection", "dirRight", "dirLeft", "dirReverse", "bends"],
+    constants={"CostDirectionN": ("(1 : Nat)", "Nat"), "CostDirectionE": ("(2 : Nat)", "Nat"),
+               "CostDirectionS": ("(4 : Nat)", "Nat"), "CostDirectionW": ("(8 : Nat)", "Nat")},
+)
+
+JOBS = {"geometry": GEOMETRY, "makepath": MAKEPATH}
 
 def regenerate(names, ROOT, REPO):
     info = {}
